@@ -89,7 +89,10 @@ theorem tie_containsPoint (c : Cell) (p : V3) :
     containsPoint c p =
       match faceXYZToUV c.face p with
       | none => false
-      | some (u, v) => Rect2.containsPoint (Rect2.expandedByMargin c.uv ⟨CellDistFns.dblEpsilon_bits⟩) u v := rfl
+      | some (u, v) => Rect2.containsPoint (Rect2.expandedByMargin c.uv ⟨CellDistFns.ContainsPoint_margin_bits⟩) u v := rfl
+
+/-- the margin of the model (`2 * dblEpsilon`, a run-time-free constant expression) is the constant the compiler folds -/
+theorem tie_containsMargin : CellM.containsMargin.bits = CellDistFns.ContainsPoint_margin_bits := by decide
 
 theorem tie_distance (c : Cell) (t : V3) : distance c t = distanceInternal c t true ∧ boundaryDistance c t = distanceInternal c t false :=
   ⟨rfl, rfl⟩
@@ -106,7 +109,7 @@ theorem tie_vEdgeIsClosest_shape : CellDistFns.vEdgeIsClosest_shape =
 theorem tie_distanceInternal_shape : CellDistFns.distanceInternal_shape =
     "target := faceXYZtoUVW(int(c.face), targetXYZ); dir00 := val0; dir01 := val1; dir10 := val2; dir11 := val3; inside := true; if cond0 {inside = false; if cond1 {return edgeDistance(val4, c.uv.X.Lo, target.Y, val5)}}; if cond2 {inside = false; if cond3 {return edgeDistance(dir01, c.uv.X.Hi, target.Y, val6)}}; if cond4 {inside = false; if cond5 {return edgeDistance(val7, c.uv.Y.Lo, target.X, val8)}}; if cond6 {inside = false; if cond7 {return edgeDistance(dir11, c.uv.Y.Hi, target.X, val9)}}; if cond8 {if cond9 {return s1.ChordAngle(0)}; return minChordAngle(edgeDistance(val10, c.uv.X.Lo, target.Y, val11), edgeDistance(dir01, c.uv.X.Hi, target.Y, val12), edgeDistance(val13, c.uv.Y.Lo, target.X, val14), edgeDistance(dir11, c.uv.Y.Hi, target.X, val15))}; return minChordAngle(c.vertexChordDist2(target, false, false), c.vertexChordDist2(target, true, false), c.vertexChordDist2(target, false, true), c.vertexChordDist2(target, true, true))" := rfl
 theorem tie_ContainsPoint_shape : CellDistFns.ContainsPoint_shape =
-    "var uv r2.Point; var ok bool; if[uv.X, uv.Y, ok = faceXYZToUV(int(c.face), p)] cond0 {return false}; return c.uv.ExpandedByMargin(dblEpsilon).ContainsPoint(uv)" := rfl
+    "var uv r2.Point; var ok bool; if[uv.X, uv.Y, ok = faceXYZToUV(int(c.face), p)] cond0 {return false}; return c.uv.ExpandedByMargin(2 * dblEpsilon).ContainsPoint(uv)" := rfl
 theorem tie_Distance_shape : CellDistFns.Distance_shape =
     "return c.distanceInternal(target, true)" := rfl
 theorem tie_BoundaryDistance_shape : CellDistFns.BoundaryDistance_shape =
